@@ -25,6 +25,7 @@ SIZE_POS = {'normal': 2, 'poisson': 1, 'uniform': 2, 'exponential': 1, 'standard
 def check(repo, res, tier):
     canon = Canon(repo)
     logic = Logic(canon)
+    pcanon = ProvCanon(repo)
     res.rule('C15.Y1', 'every distribution branch draws an array from default_rng(self.seed) and '
                        'uses the degree only through .value')
     res.rule('C15.Y2', 'returned delay = element of sample[sample > mean] (or >=), or the runtime itself')
@@ -81,10 +82,8 @@ def check(repo, res, tier):
         meth = draw.func.attr
         gen = draw.func.value
         # (a) seeded by self.seed
-        seeded = isinstance(gen, ast.Call) and call_name(gen) == 'default_rng' and gen.args and \
-            canon.c(gen.args[0], fr) == 'DelayModel.seed'
-        if not seeded and isinstance(gen, ast.Call) and call_name(gen) == 'default_rng':
-            seeded = any(k.arg == 'seed' and canon.c(k.value, fr) == 'DelayModel.seed' for k in gen.keywords)
+        gp = pcanon.p(gen, fr)
+        seeded = gp in ('default_rng(DelayModel.seed)', 'default_rng(seed=DelayModel.seed)')
         if seeded:
             res.ok('C15.Y1', f, n, '%s branch draws from default_rng(self.seed)' % meth)
         else:
@@ -188,7 +187,7 @@ def check(repo, res, tier):
     for p in gpaths:
         for i, e in enumerate(p.events):
             if stmt_contains(e, lambda x: isinstance(x, ast.Call) and call_name(x) == '_create_random_value_from_runtime'):
-                must = path_must(logic, p, i, depth=0)
+                must = path_must(Logic(pcanon), p, i, depth=1)
                 gate = [l for l in must if 'random()' in l.atom and 'DelayModel.prob' in l.atom]
                 fresh = [l for l in gate if 'default_rng(DelayModel.seed).random()' in l.atom]
                 if gate and not fresh:
